@@ -14,7 +14,7 @@ from ..report import Report
 from ..table import fmt_val
 from .common import ERROR_CLASSES, HANDLE_FAILURE, NON_RETRYABLE, RUNNERS, SELF, attr, check_enums, path_where
 from .failure_table import COUNT0, KLASS, UNK0, failure_table
-from .runner_flow import RUN_MODULES, RunnerClient, run_runners, short_witness
+from .runner_flow import flag1, RUN_MODULES, RunnerClient, run_runners, short_witness
 
 CAP_ATTRS = {"max_attempts", "per_class_max_attempts", "max_unknown_attempts"}
 COUNTER_ATTRS = {"per_class_counts", "unknown_attempts"}
@@ -116,13 +116,13 @@ class InvocationClient(RunnerClient):
             if inv == 0 and dec is None:
                 return cs
             if inv != 1:
-                flags = flags | {f"loop continues with {inv} operation invocations in the iteration"}
+                flags = flag1(flags, f"loop continues with {inv} operation invocations in the iteration")
             if dec != "retry":
-                flags = flags | {f"next attempt starts although the failure decision was `{dec}`"}
+                flags = flag1(flags, f"next attempt starts although the failure decision was `{dec}`")
             return (0, None, flags)
         if ev.kind == "call" and self.is_operation(ev):
             if inv >= 1:
-                flags = flags | {"operation invoked twice in one iteration"}
+                flags = flag1(flags, "operation invoked twice in one iteration")
             return (min(inv + 1, 2), dec, flags)
         if ev.kind == "store":
             v = ev.node.info["value"]
@@ -136,9 +136,9 @@ class InvocationClient(RunnerClient):
                             if k == "action" and val[0] == "c":
                                 act = val[1]
                     if act is None:
-                        flags = flags | {"failure decision is not a constant action"}
+                        flags = flag1(flags, "failure decision is not a constant action")
                     if dec is not None:
-                        flags = flags | {"two failure decisions in one iteration"}
+                        flags = flag1(flags, "two failure decisions in one iteration")
                     return (inv, act or "?", flags)
         return cs
 
